@@ -1,3 +1,116 @@
-(** C20 - literal macros build exactly the number that was written: pinned statements. *)
-From Dashu Require Import Base.Prelude Base.Words Int.IoSpec Macro.LitModel.
+(** C20 - literal macros build exactly the number that was written: pinned statements.
+    Models: theories/Macro/LitModel.v; proofs: LitGenProofs.v (generators, constructors),
+    LitTokProofs.v (token loops).  Every statement is for all magnitudes / all token lists. *)
+From Dashu Require Import Base.Prelude Base.Words Int.IoSpec Macro.LitModel Macro.LitGenProofs Macro.LitTokProofs.
 Open Scope Z_scope.
+
+(** from_le_bytes (to_le_bytes n) = n, and the byte string is the shortest one *)
+Theorem C20_le_bytes_roundtrip : forall n, 0 <= n -> value 8 (le_bytes n) = n.
+Proof. exact le_bytes_value. Qed.
+Print Assumptions C20_le_bytes_roundtrip.
+
+Theorem C20_le_bytes_minimal : forall n, 0 <= n -> le_bytes n = [] \/ last (le_bytes n) 0 <> 0.
+Proof. exact le_bytes_top. Qed.
+Print Assumptions C20_le_bytes_minimal.
+
+(** regrouping bytes into words of k bytes (le_bytes_to_<int>_array), any k > 0: well-formed words,
+    same value, length = ceil(bytes / k), top word non-zero when the top byte is *)
+Theorem C20_regroup : forall k : nat, (0 < k)%nat -> forall bs, wf 8 bs ->
+  let a := le_bytes_to_array k bs in
+  wf (8 * Z.of_nat k) a /\ value (8 * Z.of_nat k) a = value 8 bs /\
+  (length bs <= length a * k)%nat /\ (length a * k < length bs + k)%nat /\
+  (bs <> [] -> last bs 0 <> 0 -> a <> [] /\ last a 0 <> 0).
+Proof. exact le_bytes_to_array_spec. Qed.
+Print Assumptions C20_regroup.
+
+(** quote_words for 16/32/64-bit words: LEN excludes the padding, max_len suffices, entries in range *)
+Theorem C20_static_slice : forall wbits bs, std_word wbits -> wf 8 bs ->
+  select_words wbits (quote_words bs) = Some (le_bytes_to_array (word_bytes wbits) bs).
+Proof. exact select_words_quote. Qed.
+Print Assumptions C20_static_slice.
+
+(** from_static_words' assertions hold and it builds the number *)
+Theorem C20_static_words_value : forall wbits bs, std_word wbits -> wf 8 bs -> (bs = [] \/ last bs 0 <> 0) ->
+  eval_words wbits (quote_words bs) = Some (value 8 bs).
+Proof. exact eval_words_quote. Qed.
+Print Assumptions C20_static_words_value.
+
+(** the three integer generators build the parsed number, whatever the magnitude and the word size *)
+Theorem C20_int_generators : forall wbits static_ s mag, std_word wbits -> 0 <= mag ->
+  eval_ishape wbits (gen_int_asis static_ s mag) = Some (int_spec s mag).
+Proof. exact gen_int_asis_correct. Qed.
+Print Assumptions C20_int_generators.
+
+Theorem C20_int_generator_path : forall static_ s mag, 0 <= mag ->
+  (exists u, gen_int_asis static_ s mag = IC32 s u) <-> (mag < 2 ^ 32 /\ static_ = false).
+Proof. exact gen_int_asis_path. Qed.
+Print Assumptions C20_int_generator_path.
+
+(** float generators: (sign, significand, exponent, precision) preserved outside the two listed classes *)
+Theorem C20_float_generators : forall B wbits static_ s mag e p,
+  B = 2 \/ B = 10 -> std_word wbits -> float_pre B mag e p ->
+  ~ Known_static_precision static_ mag p -> ~ Known_zero_precision mag p ->
+  eval_fshape B wbits (gen_float_asis static_ s mag e p) = Some (float_spec s mag e p).
+Proof. exact gen_float_asis_correct. Qed.
+Print Assumptions C20_float_generators.
+
+Theorem C20_float_static_precision_refuted :
+  exists s mag e p, float_pre 2 mag e p /\ Known_static_precision true mag p /\
+    eval_fshape 2 64 (gen_float_asis true s mag e p) <> Some (float_spec s mag e p).
+Proof. exact float_static_precision_refuted. Qed.
+Print Assumptions C20_float_static_precision_refuted.
+
+Theorem C20_float_zero_precision_refuted :
+  exists st s e p, float_pre 10 0 e p /\ Known_zero_precision 0 p /\
+    eval_fshape 10 64 (gen_float_asis st s 0 e p) <> Some (float_spec s 0 e p).
+Proof. exact float_zero_precision_refuted. Qed.
+Print Assumptions C20_float_zero_precision_refuted.
+
+(** ratio generators: (numerator, denominator) preserved; the macro's components are reduced *)
+Theorem C20_ratio_generators : forall wbits static_ relaxed num den,
+  std_word wbits -> ratio_pre num den -> ratio_reduced relaxed num den ->
+  eval_rshape wbits relaxed (gen_ratio_asis static_ num den) = Some (num, den).
+Proof. exact gen_ratio_asis_correct. Qed.
+Print Assumptions C20_ratio_generators.
+
+Theorem C20_ratio_parts_reduced : forall relaxed num den a c,
+  ratio_parts_spec relaxed num den = Some (a, c) -> relaxed = false -> ratio_pre a c /\ ratio_reduced false a c.
+Proof. exact ratio_parts_spec_reduced. Qed.
+Print Assumptions C20_ratio_parts_reduced.
+
+(** the const Euclid loop of RBig::from_parts_const never runs out of the model's fuel *)
+Theorem C20_const_gcd_fuel : forall fuel y r, 0 <= r < y -> blen y + blen r < Z.of_nat fuel ->
+  naive_gcd_loop fuel y r <> None.
+Proof. exact naive_gcd_loop_fuel. Qed.
+Print Assumptions C20_const_gcd_fuel.
+
+(** token loops: every literal of the grammar is accepted with the grammar's reading ... *)
+Theorem C20_int_tokens_sound : forall signed_ ts r,
+  int_tokens_spec signed_ ts = Some r -> int_tokens_asis signed_ ts = Some r.
+Proof. exact int_tokens_spec_sound. Qed.
+Print Assumptions C20_int_tokens_sound.
+
+Theorem C20_rat_tokens_sound : forall ts r, rat_tokens_spec ts = Some r -> rat_tokens_asis ts = Some r.
+Proof. exact rat_tokens_spec_sound. Qed.
+Print Assumptions C20_rat_tokens_sound.
+
+Theorem C20_fbin_text_sound : forall ts s b, fbin_text_spec ts = Some (s, b) -> fbin_text_asis ts = (s, b).
+Proof. exact fbin_text_spec_sound. Qed.
+Print Assumptions C20_fbin_text_sound.
+
+(** ... and the loops accept more than the grammar (findings F03, F04, F05) *)
+Theorem C20_int_tokens_refuted :
+  exists ts, int_lax ts /\ int_tokens_spec true ts = None /\ int_tokens_asis true ts = Some (true, [53], None).
+Proof. exact int_tokens_refuted. Qed.
+Print Assumptions C20_int_tokens_refuted.
+
+Theorem C20_rat_tokens_refuted :
+  (exists ts, rat_tokens_spec ts = None /\ rat_tokens_asis ts = Some (false, false, [49], Some (false, [50]), None)) /\
+  (exists ts, rat_tokens_spec ts = None /\ rat_tokens_asis ts = Some (false, false, [49], None, None) /\ length ts = 2%nat).
+Proof. exact rat_tokens_refuted. Qed.
+Print Assumptions C20_rat_tokens_refuted.
+
+Theorem C20_fbin_double_sign_refuted :
+  exists ts, fbin_text_spec ts = None /\ fbin_text_asis ts = (Negative, [43; 49]).
+Proof. exact fbin_double_sign_refuted. Qed.
+Print Assumptions C20_fbin_double_sign_refuted.
